@@ -702,7 +702,17 @@ func shortCircuitDispatch(fn *ssa.Function, d *dispatch, kt types.Type) bool {
 	for _, b := range fn.Blocks {
 		for _, in := range b.Instrs {
 			if bo, ok := in.(*ssa.BinOp); ok {
-				if tag, _, ok := enumTest(bo, kt); ok && tag == d.Tag && (d.IsTest(b) || !isIfCond(bo)) {
+				// (a carried operand belongs to the chain whose test block leads to it — another dispatch on the same
+				// tag value elsewhere in the function is not concerned)
+				attached := d.IsTest(b)
+				if !attached && !isIfCond(bo) {
+					for _, pr := range b.Preds {
+						if d.IsTest(pr) {
+							attached = true
+						}
+					}
+				}
+				if tag, _, ok := enumTest(bo, kt); ok && tag == d.Tag && attached {
 					for _, ref := range *bo.Referrers() {
 						if _, isIf := ref.(*ssa.If); !isIf {
 							return true
@@ -739,6 +749,66 @@ func simulateKind(d *dispatch, k int64, kt types.Type) []*ssa.BasicBlock {
 		if _, isJ := lastInstr(b).(*ssa.Jump); isJ && len(b.Instrs) == 1 && b != d.Head {
 			b = b.Succs[0]
 			continue
+		}
+		// the last operand of a short-circuit expression: the test is computed and carried into the join as a value
+		if _, isJ := lastInstr(b).(*ssa.Jump); isJ && b != d.Head && len(b.Succs) == 1 && hasPhi(b.Succs[0]) {
+			only := true
+			for _, in := range b.Instrs[:len(b.Instrs)-1] {
+				switch x := in.(type) {
+				case *ssa.DebugRef:
+				case *ssa.BinOp:
+					if tag, _, isTest := enumTest(x, kt); !isTest || tag != d.Tag {
+						only = false
+					}
+				default:
+					only = false
+				}
+			}
+			if only {
+				b = b.Succs[0]
+				continue
+			}
+		}
+		// the chain was a short-circuit expression (`isC := k == A || k == B`): its join holds the boolean as a φ and
+		// branches on it — the way in decides the outcome
+		if ifi, ok := lastInstr(b).(*ssa.If); ok && len(path) >= 2 {
+			if phi, isPhi := ifi.Cond.(*ssa.Phi); isPhi && phi.Block() == b {
+				prev := path[len(path)-2]
+				var e ssa.Value
+				for i, pr := range b.Preds {
+					if pr == prev {
+						e = phi.Edges[i]
+					}
+				}
+				outcome := 0
+				if e != nil {
+					if cb, isC := ConstBool(e); isC {
+						outcome = -1
+						if cb {
+							outcome = 1
+						}
+					} else if tag, c, isTest := enumTest(e, kt); isTest && tag == d.Tag {
+						eq := c == k
+						if e.(*ssa.BinOp).Op == token.NEQ {
+							eq = !eq
+						}
+						outcome = -1
+						if eq {
+							outcome = 1
+						}
+					}
+				}
+				if outcome != 0 && len(b.Succs) == 2 {
+					if outcome == 1 {
+						b = b.Succs[0]
+					} else {
+						b = b.Succs[1]
+					}
+					// the successor is where the simulation ends
+					path = append(path, b)
+					return path
+				}
+			}
 		}
 		return path
 	}
@@ -787,9 +857,7 @@ func (a *addrAnalysis) edgeInfeasible(fn *ssa.Function, q, j, use *ssa.BasicBloc
 	b := newNF(a.c)
 	ds := findDispatches(fn, kt)
 	for _, d1 := range ds {
-		if shortCircuitDispatch(fn, d1, kt) {
-			continue
-		}
+		// (a short-circuit chain is fine here: simulateKind follows it through the boolean's join)
 		// kinds that take the edge q -> j inside d1's chain
 		onEdge := map[int64]bool{}
 		any := false
